@@ -338,6 +338,7 @@ type LogoutReq struct {
 	NameID                    string
 	NameIDFormat              string
 	NoNameID                  bool
+	OtherPrincipal            string // with NoNameID: "EncryptedID" or "BaseID" - the other forms of principal SAML core 3.7.1 allows
 	SessionIndex              []string
 	Style                     Style
 }
@@ -363,6 +364,11 @@ func (l *LogoutReq) Node() *Node {
 			n.Set("Format", l.NameIDFormat)
 		}
 		root.Add(n)
+	} else if l.OtherPrincipal == "EncryptedID" {
+		root.Add(s.a("EncryptedID").Add(El("xenc:EncryptedData", Attr{"xmlns:xenc", "http://www.w3.org/2001/04/xmlenc#"}, Attr{"Type", "http://www.w3.org/2001/04/xmlenc#Element"}).Add(
+			El("xenc:CipherData").Add(El("xenc:CipherValue").SetText("AAAA")))))
+	} else if l.OtherPrincipal == "BaseID" {
+		root.Add(s.a("BaseID").Set("NameQualifier", "urn:example:q"))
 	}
 	for _, si := range l.SessionIndex {
 		root.Add(s.p("SessionIndex").SetText(si))
